@@ -9,3 +9,8 @@ import Modbus.Props.C03Req
 #print axioms Modbus.C03Req.req_decodes_spec_trailing
 #print axioms Modbus.C03Req.req_decodes_spec_refuses_high
 #print axioms Modbus.C03Req.req_decodes_bad_coil_value
+#print axioms Modbus.C03Req.req_conforms_any
+#print axioms Modbus.C03Req.coils_wire_conforms
+#print axioms Modbus.Coils.copyBytes_eq_packBits
+#print axioms Modbus.Coils.Backed.wire_eq_packBits
+#print axioms Modbus.bitOf_maskLow
